@@ -45,6 +45,28 @@ def cartesian_product(listoflists):
 
     return res
 
+def grid_scale(x):
+    """
+    Number of decimal places of x (same rule as BPTK_Py.util.floating_point.scale)
+    """
+    max_digits = 14
+    int_part = int(abs(x))
+    magnitude = 1 if int_part == 0 else int(math.log10(int_part)) + 1
+    if magnitude >= max_digits:
+        return 0
+    multiplier = 10 ** (max_digits - magnitude)
+    frac_digits = multiplier + int(multiplier * (abs(x) - int_part) + 0.5)
+    while frac_digits % 10 == 0:
+        frac_digits /= 10
+    return int(math.log10(frac_digits))
+
+def grid_time(t, dt, starttime):
+    """
+    Snap a time value onto the simulation grid starttime + k*dt (same rule as BPTK_Py.util.floating_point.normalize).
+    Times computed as t-dt carry floating point error; memo keys and the comparison with starttime need the grid value.
+    """
+    return 1.0 * round(dt * round((t - starttime) / dt) + starttime, max(grid_scale(starttime), grid_scale(dt)))
+
 def LERP(x,points):
     """
     Linear interpolation between a set of points
@@ -620,6 +642,9 @@ class simulation_model():
                 logging.error("Equation '{}' not found!".format(equation))
 
         mymemo = self.memo[equation]
+
+        # the argument is a point in time: snap it onto the time grid, like the SD DSL's Model.memoize does
+        arg = grid_time(arg, self.dt, self.starttime)
 
         if arg in mymemo.keys():
             return mymemo[arg]
